@@ -104,7 +104,7 @@ struct C28 : Monitor {
         if (!sh->outcome_classes[14].load()) { printf("HARNESS-ERROR property=C28 no script re-verification happened\n"); return 2; }
         uint64_t codes = sh->outcome_classes[13].load();
         vx::ev().set("validation_result_codes_seen_bitmask", codes);
-        if (__builtin_popcountll(codes) < 5) { printf("HARNESS-ERROR property=C28 fewer than 5 distinct validation result codes seen (mask %llx)\n", (unsigned long long)codes); return 2; }
+        if (sim.o.has("NX") && __builtin_popcountll(codes) < 5) { printf("HARNESS-ERROR property=C28 fewer than 5 distinct validation result codes seen (mask %llx)\n", (unsigned long long)codes); return 2; }
         return 0;
     }
 };
